@@ -3,7 +3,7 @@
 //! Contract modelled:
 //!  * `create_with` initialises a *reused-in-place* slot (stale data would be visible) and returns a key that
 //!    encodes (generation, slot), so a stale key never aliases a reused slot;
-//!  * `get` returns a guard; while any guard is outstanding a `clear` is deferred until the last guard drops;
+//!  * `get` returns a guard; a `clear` while a guard is outstanding is reported (assert) — see `clear`;
 //!  * `clear` calls `Clear::clear` exactly once per removal, after which the key is dead;
 //!  * slots are handed out lowest-free-first (the adversarial choice for stale-data bugs).
 //! No synchronisation: verification builds are single-threaded.
@@ -19,12 +19,12 @@ pub struct Pool<T> {
     slots: [Slot<T>; SLOTS],
 }
 
-struct Slot<T> {
-    val: UnsafeCell<T>,
-    occupied: Cell<bool>,
-    refs: Cell<usize>,
-    marked: Cell<bool>,
-    gen: Cell<usize>,
+pub(crate) struct Slot<T> {
+    pub(crate) val: UnsafeCell<T>,
+    pub(crate) occupied: Cell<bool>,
+    pub(crate) refs: Cell<usize>,
+    pub(crate) marked: Cell<bool>,
+    pub(crate) gen: Cell<usize>,
 }
 
 unsafe impl<T: Send> Sync for Pool<T> {}
@@ -58,24 +58,27 @@ impl<T: Default + Clear> Pool<T> {
     }
 
     pub fn create_with(&self, init: impl FnOnce(&mut T)) -> Option<usize> {
-        let mut i = 0;
-        while i < SLOTS {
-            let s = &self.slots[i];
-            if !s.occupied.get() {
-                unsafe {
-                    init(&mut *s.val.get());
-                }
-                s.occupied.set(true);
-                return Some(s.gen.get() * SLOTS + i);
-            }
-            i += 1;
+        // straight-line scan (no loop: keeps the model checker's unwind bound independent of SLOTS)
+        let i = if !self.slots[0].occupied.get() {
+            0
+        } else if !self.slots[1].occupied.get() {
+            1
+        } else if !self.slots[2].occupied.get() {
+            2
+        } else {
+            return None;
+        };
+        let s = &self.slots[i];
+        unsafe {
+            init(&mut *s.val.get());
         }
-        None
+        s.occupied.set(true);
+        Some(s.gen.get() * SLOTS + i)
     }
 
     pub fn get(&self, key: usize) -> Option<pool::Ref<'_, T>> {
-        let i = key % SLOTS;
-        let s = &self.slots[i];
+        let i = Self::slot_of(key);
+        let s = self.slot(i);
         if !s.occupied.get() || s.marked.get() || s.gen.get() != key / SLOTS {
             return None;
         }
@@ -84,21 +87,44 @@ impl<T: Default + Clear> Pool<T> {
     }
 
     pub fn clear(&self, key: usize) -> bool {
-        let i = key % SLOTS;
-        let s = &self.slots[i];
+        let i = Self::slot_of(key);
+        let s = self.slot(i);
         if !s.occupied.get() || s.marked.get() || s.gen.get() != key / SLOTS {
             return false;
         }
-        if s.refs.get() > 0 {
-            s.marked.set(true);
-            return true;
-        }
+        // Sequential contract: the real pool defers the removal until the last outstanding guard is dropped.
+        // In a single-threaded run of the Registry no guard can be outstanding when a span's storage is
+        // cleared (CloseGuard clears after every on_close returned); a run that gets here with a live guard
+        // would let a layer observe cleared data, so the model reports it instead of deferring.
+        assert!(s.refs.get() == 0, "verif shim: Pool::clear while a guard to the slot is outstanding");
         self.release(i);
         true
     }
 
+    /// slot index as control flow rather than as a symbolic array index (much cheaper for the model checker)
+    fn slot_of(key: usize) -> usize {
+        let r = key % SLOTS;
+        if r == 0 {
+            0
+        } else if r == 1 {
+            1
+        } else {
+            2
+        }
+    }
+
+    pub(crate) fn slot(&self, i: usize) -> &Slot<T> {
+        if i == 0 {
+            &self.slots[0]
+        } else if i == 1 {
+            &self.slots[1]
+        } else {
+            &self.slots[2]
+        }
+    }
+
     fn release(&self, i: usize) {
-        let s = &self.slots[i];
+        let s = self.slot(i);
         // the slot is unreachable by key from now on; clearing may re-enter the pool (parent close)
         s.marked.set(true);
         unsafe {
@@ -111,15 +137,9 @@ impl<T: Default + Clear> Pool<T> {
 
     /// verification aid: number of occupied slots
     pub fn verif_live(&self) -> usize {
-        let mut n = 0;
-        let mut i = 0;
-        while i < SLOTS {
-            if self.slots[i].occupied.get() {
-                n += 1;
-            }
-            i += 1;
-        }
-        n
+        self.slots[0].occupied.get() as usize
+            + self.slots[1].occupied.get() as usize
+            + self.slots[2].occupied.get() as usize
     }
 }
 
@@ -141,7 +161,7 @@ pub mod pool {
     impl<'a, T: Default + Clear> std::ops::Deref for Ref<'a, T> {
         type Target = T;
         fn deref(&self) -> &T {
-            unsafe { &*self.pool.slots[self.idx].val.get() }
+            unsafe { &*self.pool.slot(self.idx).val.get() }
         }
     }
 
@@ -153,12 +173,8 @@ pub mod pool {
 
     impl<'a, T: Default + Clear> Drop for Ref<'a, T> {
         fn drop(&mut self) {
-            let s = &self.pool.slots[self.idx];
+            let s = self.pool.slot(self.idx);
             s.refs.set(s.refs.get() - 1);
-            if s.refs.get() == 0 && s.marked.get() && s.occupied.get() {
-                s.marked.set(false);
-                self.pool.release(self.idx);
-            }
         }
     }
 }
